@@ -342,7 +342,8 @@ def run(ctx):
     }
     cases = list(enumerate_cases(thorough))
     ctx.log("%d record variants, %d cases" % (len(pool), len(cases)))
-    par.pmap_tally(chunk, cases, ctx.tally, nchunks=par.NPROC * 4)
+    nproc = par.NPROC if thorough else min(4, par.NPROC)  # quick is ~10 s of CPU: a few workers are enough
+    par.pmap_tally(chunk, cases, ctx.tally, nchunks=nproc * 4, nproc=nproc)
     ctx.log("records forwarded and compared: %d" % ctx.tally.extra.get("records_forwarded", 0))
 
 
